@@ -339,8 +339,15 @@ def completion_cases(ctx, table: dict, hist: dict) -> list[dict]:
         for d in others[:6]:      # the near misses, one at a time, at top level
             for row in (d, d + " x", d.split()[0] + " zz", rev + " " + d):
                 cases.append(dict(base, tree={row: {}}, src="hw/single"))
-        for _ in range(per_dev if rules else 3):
-            cases.append(dict(base, tree=gen_tree(rng, rules, rev, others, hist=hist), src="hw/random"))
+        # devices that share the model string but not the table (the table may depend on more than the model,
+        # e.g. on a tag): trees drawn from the sibling's table show a completion done with the wrong table
+        sibs = [table[n2]["tree"] for n2 in table if n2 != name and table[n2]["model"] == r["model"] and table[n2]["tree"]]
+        for k in range(per_dev if (rules or sibs) else 3):
+            src_rules = rng.choice(sibs) if sibs and (not rules or k % 3 == 0) else rules
+            cases.append(dict(base, tree=gen_tree(rng, src_rules, rev, all_defaults(src_rules), hist=hist),
+                              src="hw/random" if src_rules is rules else "hw/random-sibling-table"))
+    # the runner processes keep whatever the implementation caches: let devices alternate inside each process
+    rng.shuffle(cases)
     n_text = 4000 if ctx.thorough else 350
     for i in range(n_text):
         rules = gen_irules(rng)
